@@ -140,7 +140,10 @@ pub fn gen_faults(r: &mut Rng) -> Vec<FaultSpec> {
             v.push(FaultSpec { role: Role::Worker, kind: Sk::Sync, nth: n + 2 + r.below(2) as u32, action: "eio".into() });
         }
         v
-    } else if w < 90 {
+    } else if w < 86 {
+        // creating the next chunk file fails once (at a rotation)
+        vec![FaultSpec { role: Role::Caller, kind: Sk::Create, nth: r.range(1, 8) as u32, action: "eio".into() }]
+    } else if w < 93 {
         let k = r.range(1, 30) as usize;
         let action = match r.below(3) {
             0 => "eio".to_string(),
